@@ -12,7 +12,7 @@ From Coq Require Import List Bool Arith.
 From ReqV Require Import Model.Lifecycle.
 Import ListNotations.
 
-Inductive cst3 := C3Conn | C3Send | C3Wait | C3Ret (r : callres).
+Inductive cst3 := C3Conn | C3Stream | C3Send | C3Wait | C3Ret (r : callres).
 Inductive dial3 := D3Ready | D3Running | D3Err.
 Inductive entry3 := E3None | E3Dialing | E3Ready | E3Failed.
 Inductive bg3 := BgNone | BgRunning | BgDone.
@@ -26,31 +26,35 @@ Record h3 := mkH3 {
   scancel : bool;        (* CancelWrite + CancelRead were called on the request stream *)
   bg : bg3;              (* the goroutine sending the request body *)
   bclosed3 : bool;       (* request body closed *)
-  pipe3 : bodyres        (* the response body as the caller sees it *)
+  pipe3 : bodyres;       (* the response body as the caller sees it *)
+  sblocked : bool        (* the peer's bidirectional stream limit is used up: OpenStreamSync blocks *)
 }.
 
 Inductive label3 :=
-| ZConnReady | ZHdrSent | ZBodySent | ZResp (b : bool) | ZData | ZEnd | ZCancel (c : cause)
-| LProceed | LWaitCtx | LDialCtx | LDialErrSeen | LCancelG | LHdrFail | LReadFail | LBgFail | LBodyFail.
+| ZConnReady | ZStreamLimit | ZStreamGranted | ZHdrSent | ZBodySent | ZResp (b : bool) | ZData | ZEnd | ZCancel (c : cause)
+| LProceed | LStreamOpen | LStreamCtx | LWaitCtx | LDialCtx | LDialErrSeen | LCancelG | LHdrFail | LReadFail | LBgFail | LBodyFail.
 
-Record cfg3 := mkCfg3 { c3_reuse : bool; c3_body : bool }.
+Record cfg3 := mkCfg3 { c3_reuse : bool; c3_body : bool; c3_limit : bool (* the peer's stream limit is used up by another request *) }.
 
 Definition init3 (c : cfg3) : h3 :=
-  if c3_reuse c then mkH3 C3Conn D3Ready E3Ready None false false BgNone false BNone
-  else mkH3 C3Conn D3Running E3Dialing None false false BgNone false BNone.
+  if c3_reuse c then mkH3 C3Conn D3Ready E3Ready None false false BgNone false BNone (c3_limit c)
+  else mkH3 C3Conn D3Running E3Dialing None false false BgNone false BNone (c3_limit c).
 
 Definition with_c (s : h3) (c : cst3) : h3 :=
-  mkH3 c (d3 s) (e3 s) (ctx3 s) (cg3 s) (scancel s) (bg s) (bclosed3 s) (pipe3 s).
+  mkH3 c (d3 s) (e3 s) (ctx3 s) (cg3 s) (scancel s) (bg s) (bclosed3 s) (pipe3 s) (sblocked s).
 Definition with_bclosed (s : h3) (b : bool) : h3 :=
-  mkH3 (c3 s) (d3 s) (e3 s) (ctx3 s) (cg3 s) (scancel s) (bg s) (bclosed3 s || b) (pipe3 s).
+  mkH3 (c3 s) (d3 s) (e3 s) (ctx3 s) (cg3 s) (scancel s) (bg s) (bclosed3 s || b) (pipe3 s) (sblocked s).
 Definition with_pipe (s : h3) (p : bodyres) : h3 :=
-  mkH3 (c3 s) (d3 s) (e3 s) (ctx3 s) (cg3 s) (scancel s) (bg s) (bclosed3 s) p.
+  mkH3 (c3 s) (d3 s) (e3 s) (ctx3 s) (cg3 s) (scancel s) (bg s) (bclosed3 s) p (sblocked s).
 Definition with_cg (s : h3) (g : bool) : h3 :=
-  mkH3 (c3 s) (d3 s) (e3 s) (ctx3 s) g (scancel s) (bg s) (bclosed3 s) (pipe3 s).
+  mkH3 (c3 s) (d3 s) (e3 s) (ctx3 s) g (scancel s) (bg s) (bclosed3 s) (pipe3 s) (sblocked s).
 Definition with_entry (s : h3) (d : dial3) (e : entry3) : h3 :=
-  mkH3 (c3 s) d e (ctx3 s) (cg3 s) (scancel s) (bg s) (bclosed3 s) (pipe3 s).
+  mkH3 (c3 s) d e (ctx3 s) (cg3 s) (scancel s) (bg s) (bclosed3 s) (pipe3 s) (sblocked s).
 Definition with_bg (s : h3) (g : bg3) : h3 :=
-  mkH3 (c3 s) (d3 s) (e3 s) (ctx3 s) (cg3 s) (scancel s) g (bclosed3 s) (pipe3 s).
+  mkH3 (c3 s) (d3 s) (e3 s) (ctx3 s) (cg3 s) (scancel s) g (bclosed3 s) (pipe3 s) (sblocked s).
+
+Definition with_blocked (s : h3) (b : bool) : h3 :=
+  mkH3 (c3 s) (d3 s) (e3 s) (ctx3 s) (cg3 s) (scancel s) (bg s) (bclosed3 s) (pipe3 s) b.
 
 Definition deadline_like (c : cause) : bool := match c with CCanceled => false | _ => true end.
 
@@ -86,12 +90,25 @@ Definition step3 (fx : bool) (c : cfg3) (s : h3) (l : label3) : option h3 :=
       end
   | ZCancel cs =>
       Some (match ctx3 s with
-            | None => mkH3 (c3 s) (d3 s) (e3 s) (Some cs) (cg3 s) (scancel s) (bg s) (bclosed3 s) (pipe3 s)
+            | None => mkH3 (c3 s) (d3 s) (e3 s) (Some cs) (cg3 s) (scancel s) (bg s) (bclosed3 s) (pipe3 s) (sblocked s)
             | _ => s end)
   (* ---- RoundTripOpt / roundTrip ---- *)
+  | ZStreamLimit => if sblocked s then None else Some (with_blocked s true)
+  | ZStreamGranted => if sblocked s then Some (with_blocked s false) else None
   | LProceed =>
       match c3 s, d3 s with
-      | C3Conn, D3Ready => Some (with_cg (with_c s C3Send) true)      (* stream opened, cancel goroutine started *)
+      | C3Conn, D3Ready => Some (with_c s C3Stream)                  (* openRequestStream: OpenStreamSync(ctx) *)
+      | _, _ => None
+      end
+  | LStreamOpen =>
+      match c3 s, sblocked s with
+      | C3Stream, false => Some (with_cg (with_c s C3Send) true)     (* stream opened, cancel goroutine started *)
+      | _, _ => None
+      end
+  | LStreamCtx =>
+      (* OpenStreamSync waits with the REQUEST's context *)
+      match c3 s, ctx3 s with
+      | C3Stream, Some cs => Some (with_bclosed (with_c s (C3Ret (CErr (ECause cs)))) (fx && c3_body c))
       | _, _ => None
       end
   | LWaitCtx =>
@@ -113,7 +130,7 @@ Definition step3 (fx : bool) (c : cfg3) (s : h3) (l : label3) : option h3 :=
   (* ---- the cancel goroutine ---- *)
   | LCancelG =>
       match cg3 s, ctx3 s with
-      | true, Some _ => Some (mkH3 (c3 s) (d3 s) (e3 s) (ctx3 s) false true (bg s) (bclosed3 s) (pipe3 s))
+      | true, Some _ => Some (mkH3 (c3 s) (d3 s) (e3 s) (ctx3 s) false true (bg s) (bclosed3 s) (pipe3 s) (sblocked s))
       | _, _ => None
       end
   (* ---- what the cancelled stream makes fail ---- *)
@@ -144,7 +161,7 @@ Definition step3 (fx : bool) (c : cfg3) (s : h3) (l : label3) : option h3 :=
   end.
 
 Definition internals3 : list label3 :=
-  [LProceed; LWaitCtx; LDialCtx; LDialErrSeen; LCancelG; LHdrFail; LReadFail; LBgFail; LBodyFail].
+  [LProceed; LStreamOpen; LStreamCtx; LWaitCtx; LDialCtx; LDialErrSeen; LCancelG; LHdrFail; LReadFail; LBgFail; LBodyFail].
 
 (* the next request on the same host: getClient hands out a finished, failed dial's error in the
    pinned code; the current code drops such an entry and dials again *)
